@@ -160,7 +160,9 @@ def _create_files(  # noqa: C901, PLR0912, PLR0913
 
 
 def _delete_dirs(entries, path, fs):
-    for entry in entries:
+    # NOTE: nested dirs have to be removed before their parents, otherwise
+    # rmdir fails on a non-empty dir and the parents are left behind.
+    for entry in sorted(entries, key=lambda entry: len(entry.key), reverse=True):
         try:
             fs.rmdir(fs.join(path, *entry.key))
         except OSError:
